@@ -121,12 +121,45 @@ def sweep_text(prefix, length, col, following):
     return pre + line + post, len(pre) + col - 1
 
 
+def fresh_copy(t):
+    """An equal text in a NEW object (nobody else holds it)."""
+    return ''.join(list(t)) if isinstance(t, str) else bytes(bytearray(t))
+
+
+def reuse_pair(mod, a, b):
+    """Parse a fresh copy of `a`, let it go, then parse a fresh copy of `b` (same length, other line
+    structure) that happens to live where the first text lived: an error location describes the text of
+    THIS call.  Returns (kind, exc, text b) of the second call, or None if no copy landed at that address."""
+    ta = fresh_copy(a)
+    where = id(ta)
+    run_one(mod, ta)
+    del ta
+    keep = []
+    for _ in range(64):
+        tb = fresh_copy(b)
+        if id(tb) == where:
+            kind, exc = run_one(mod, tb)
+            return kind, exc, tb
+        keep.append(tb)
+    return None
+
+
+def reuse_texts(length, k):
+    """Two texts of one length whose line breaks sit at different offsets in front of the foreign character."""
+    body = length - 1
+    i, j = (k * 7) % max(1, body - 2), (k * 13 + 5) % max(1, body - 2)
+    if i == j:
+        j = (j + 1) % max(1, body - 2)
+    mk = lambda n: ('a' * n + '\n' + 'a' * (body - n - 2) + 'Z' + 'a')[:length]
+    return mk(i), mk(j)
+
+
 class C09(Check):
     id = 'C09'
     technique = 'PBT: exhaustive line-length x error-column sweep + hypothesis multi-line texts through generated grammars; validity predicate on index/line/column/caret/excerpt'
     rule = ('cases = (grammar, text, pos); (i) exhaustive sweep: line length 1..260 x every error column x 4 kinds of '
             'preceding text x 3 kinds of following text through 3 fixed grammars (ParseError via sequence, via choice '
-            'farthest-failure, PartialParseError); (ii) hypothesis: generated core grammars with an ignore pattern for '
+            'farthest-failure, PartialParseError); (i-b) the same three grammars on pairs of texts of one length with different line structure, the second parsed in a fresh object at the address the first (dropped) one had; (ii) hypothesis: generated core grammars with an ignore pattern for '
             'blanks/newlines and bytes-mode grammars, multi-line texts with lines of 0..400 characters containing one '
             'foreign character, pos >= 0. Every raised error is checked: index in [pos, len] and not beyond the foreign '
             'character, line/column recomputed independently, None/None iff ParseError at end of input, numbers in the '
@@ -147,6 +180,8 @@ class C09(Check):
         n = 16 if tier == 'quick' else 64
         for s in range(n):
             tasks.append(('hyp', seed * 1000003 + s, 150 if tier == 'quick' else 1000))
+        for g in SWEEP_GRAMMARS:
+            tasks.append(('reuse', g, 200 if tier == 'quick' else 2000))
         random.Random(seed).shuffle(tasks)
         return tasks
 
@@ -180,6 +215,23 @@ class C09(Check):
                                 res.mismatch({'sweep': gname, 'prefix': prefix, 'length': length, 'col': col,
                                               'following': following})
             res.sample({'sweep_grammar': SWEEP_GRAMMARS[gname], 'lengths': [lens[0], lens[-1]]})
+            return res
+        if task[0] == 'reuse':
+            _, gname, n = task
+            mod = sweep_module(gname)
+            for k in range(n):
+                a, b = reuse_texts(12 + k % 90, k)
+                r = reuse_pair(mod, a, b)
+                if r is None:
+                    res.hist['reuse_no_address_match'] += 1
+                    continue
+                kind, exc, tb = r
+                res.evals += 1
+                res.hist['reuse_same_address'] += 1
+                res.nontrivial.add(h64('reuse', gname, a, b))
+                bad = ('no-error', str(kind)) if kind not in ('FAIL', 'PARTIAL') else check_error(tb, 0, kind, exc)
+                if bad:
+                    res.mismatch({'reuse': gname, 'a': a, 'b': b})
             return res
         self.run_hyp(res, task)
         return res
@@ -263,6 +315,18 @@ class C09(Check):
             pass
 
     def replay(self, case):
+        if 'reuse' in case:
+            mod = sweep_module(case['reuse'])
+            for _ in range(20):
+                r = reuse_pair(mod, case['a'], case['b'])
+                if r is None:
+                    continue
+                kind, exc, tb = r
+                bad = ('no-error', str(kind)) if kind not in ('FAIL', 'PARTIAL') else check_error(tb, 0, kind, exc)
+                if bad:
+                    return {'bucket': 'after-another-text-at-the-same-address:' + bad[0], 'detail': bad[1], 'message': str(exc)[:300],
+                            'first_text': case['a'], 'second_text': case['b']}
+            return None
         if 'sweep' in case:
             mod = sweep_module(case['sweep'])
             text, idx = sweep_text(case['prefix'], case['length'], case['col'], case['following'])
@@ -295,7 +359,7 @@ class C09(Check):
                 'text': repr(t[:300]), 'pos': pos}
 
     def shrink(self, case, still_fails, deadline):
-        if 'sweep' in case:
+        if 'sweep' in case or 'reuse' in case:
             return case
         from vlib import shrink
 
@@ -307,6 +371,8 @@ class C09(Check):
         return shrink.shrink_case(case, ok, deadline)
 
     def describe(self, case):
+        if 'reuse' in case:
+            return dict(case, grammar=SWEEP_GRAMMARS[case['reuse']])
         if 'sweep' in case:
             return dict(case, grammar=SWEEP_GRAMMARS[case['sweep']])
         return {'grammar': peg.render(peg.g_from_dict(case['g'])), 'text': repr(case['text'][:300]), 'pos': case['pos']}
